@@ -1,29 +1,36 @@
 #!/bin/bash
 # usage: scripts/check.sh <property id> <quick|thorough>
-# Rebuilds the engine the property needs from /repo's working tree (content-hash stamp), runs the bounded-exhaustive
+# Rebuilds the engine the property needs from the repository working tree (content-hash stamp), runs the bounded-exhaustive
 # exploration and lets the engine write evidence/<id>.json. Exit 0: held on everything explored; 1: VIOLATION printed.
+# Environment (used by scripts/run_seeded.sh to judge a modified copy without touching /repo or this tree's evidence):
+#   VERIF_REPO  repository to compile from (default /repo)     VERIF_BUILD  build directory (default build)
+#   VERIF_OUT   where evidence/ and replays/ are written (default: this directory)
 set -u
 cd "$(dirname "$0")/.."
 ROOT=$(pwd)
 id="$1"; tier="${2:-${VERIF_TIER:-quick}}"
 export VERIF_TIER="$tier"
-export VERIF_ROOT="$ROOT"
+export VERIF_REPO="${VERIF_REPO:-/repo}"
+B="${VERIF_BUILD:-build}"
+export VERIF_BUILD="$B"
+export VERIF_ROOT="${VERIF_OUT:-$ROOT}"
+mkdir -p "$VERIF_ROOT/build" "$B"
 ./scripts/stamp.sh || exit 2
-python3 scripts/known.py open > build/known_open.txt || exit 2
-rm -rf "replays/$id"
+python3 scripts/known.py open > "$VERIF_ROOT/build/known_open.txt" || exit 2
+rm -rf "$VERIF_ROOT/replays/$id"
 build() {  # build <targets...>
-  if ! make -s -j16 "$@" > "build/make_$id.log" 2>&1; then
-    echo "BUILD FAILED for $id (see build/make_$id.log)"; tail -30 "build/make_$id.log"; exit 2
+  if ! make -s -j16 REPO="$VERIF_REPO" B="$B" "$@" > "$B/make_$id.log" 2>&1; then
+    echo "BUILD FAILED for $id (see $B/make_$id.log)"; grep -m5 -E "error" "$B/make_$id.log" | cut -c1-300; exit 2
   fi
 }
 if [ "$tier" = thorough ]; then DL=${VERIF_DEADLINE:-1500}; else DL=${VERIF_DEADLINE:-170}; fi
 case "$id" in
-  C01|C02|C07|C08|C09|C10) build build/search; exec ./build/search --prop "$id" --tier "$tier" --deadline "$DL" ;;
-  C03|C04) build build/segmentation; exec ./build/segmentation --prop "$id" --tier "$tier" --deadline "$DL" ;;
-  C05|C06|C15) build build/dynamic; exec ./build/dynamic --prop "$id" --tier "$tier" --deadline "$DL" ;;
-  C13|C14) build build/multidim; exec ./build/multidim --prop "$id" --tier "$tier" --deadline "$DL" ;;
-  C11|C12) build build/mapped; exec ./build/mapped --prop "$id" --tier "$tier" --deadline "$DL" ;;
-  C18) build build/cabi; exec ./build/cabi --prop "$id" --tier "$tier" --deadline "$DL" ;;
-  C19) build build/copymove_asan; exec ./build/copymove_asan --prop "$id" --tier "$tier" --deadline "$DL" 2> "build/asan_$id.log" ;;
+  C01|C02|C07|C08|C09|C10) build "$B/search"; exec "$B/search" --prop "$id" --tier "$tier" --deadline "$DL" ;;
+  C03|C04) build "$B/segmentation"; exec "$B/segmentation" --prop "$id" --tier "$tier" --deadline "$DL" ;;
+  C05|C06|C15) build "$B/dynamic"; exec "$B/dynamic" --prop "$id" --tier "$tier" --deadline "$DL" ;;
+  C11|C12) build "$B/mapped"; exec "$B/mapped" --prop "$id" --tier "$tier" --deadline "$DL" ;;
+  C13|C14) build "$B/multidim"; exec "$B/multidim" --prop "$id" --tier "$tier" --deadline "$DL" ;;
+  C18) build "$B/cabi"; exec "$B/cabi" --prop "$id" --tier "$tier" --deadline "$DL" ;;
+  C19) build "$B/copymove_asan"; exec "$B/copymove_asan" --prop "$id" --tier "$tier" --deadline "$DL" 2> "$B/asan_$id.log" ;;
   *) echo "unknown property $id"; exit 2 ;;
 esac
